@@ -51,7 +51,12 @@ IsLow(b) == BX(b) < LowX \/ BD(b) = 0
 
 Idx(t) == 1..Len(t)
 Abs(v) == IF v < 0 THEN -v ELSE v
-SumSeq(q) == FoldLeft(+, 0, q)          \* (a fold, not a recursion: TLC worker threads have small stacks)
+(* sum by halving: recursion depth log n (TLC worker threads have small stacks; the community FoldLeft is    *)
+(* exponential under -coverage)                                                                             *)
+RECURSIVE SumRange(_, _, _)
+SumRange(q, lo, hi) == IF lo > hi THEN 0 ELSE IF lo = hi THEN q[lo]
+                       ELSE SumRange(q, lo, (lo + hi) \div 2) + SumRange(q, (lo + hi) \div 2 + 1, hi)
+SumSeq(q) == SumRange(q, 1, Len(q))
 SpanSeq(lo, hi) == [j \in 1..(hi - lo + 1) |-> lo + j - 1]
 HasName(b, n) == \E j \in Idx(BG(b)) : BG(b)[j] = n
 Ignorable(b) == \A j \in Idx(BG(b)) : BG(b)[j] \in Ignored
@@ -95,14 +100,16 @@ Reaches(q, par) == q[2] > 0 /\ Abs(q[1]) * par.td >= par.tn * XU * q[2]
 
 (* ===================================================================== A-layer ========================== *)
 (* by_chromosome: groupby(sort=False) -- chromosomes in order of first appearance, rows in table order *)
-UniqFrom(q, acc0) == FoldLeft(LAMBDA acc, v : IF \E j \in Idx(acc) : acc[j] = v THEN acc ELSE Append(acc, v), acc0, q)
-ChromOrder(bins) == UniqFrom([k \in Idx(bins) |-> BC(bins[k])], <<>>)
+(* the distinct elements of q in order of first occurrence *)
+UniqSeq(q) == LET f == SetToSortSeq({i \in Idx(q) : \A j \in 1..(i - 1) : q[j] # q[i]}, <)
+              IN [k \in Idx(f) |-> q[f[k]]]
+ChromOrder(bins) == UniqSeq([k \in Idx(bins) |-> BC(bins[k])])
 AllPos(bins) == [k \in Idx(bins) |-> k]
 PosOn(bins, c) == SelectSeq(AllPos(bins), LAMBDA k : BC(bins[k]) = c)
 
 (* gary.py::_get_gene_map on the sub-table ps (a sequence of global row positions): an ordered dict of the   *)
 (* names in order of first occurrence, every label split on commas                                          *)
-GeneMapOrder(bins, ps) == UniqFrom(FlattenSeq([p \in Idx(ps) |-> BG(bins[ps[p]])]), <<>>)
+GeneMapOrder(bins, ps) == UniqSeq(FlattenSeq([p \in Idx(ps) |-> BG(bins[ps[p]])]))
 GeneIdx(bins, ps, n) == {p \in Idx(ps) : HasName(bins[ps[p]], n)}     \* local 1-based positions of gene n
 
 (* cnary.py::by_gene on one chromosome, REPAIRED: prev/start/end are row POSITIONS (0-based, half-open)     *)
@@ -184,7 +191,7 @@ GeneMetricsA(r, old) ==
 
 (* by_ranges(segments), mode "outer": bins of the segment's chromosome with end > seg.start, start < seg.end *)
 SegPos(bins, t) == SelectSeq(AllPos(bins), LAMBDA k : BC(bins[k]) = SC(t) /\ BE(bins[k]) > SS(t) /\ BS(bins[k]) < SE(t))
-SegChromOrder(segs) == UniqFrom([k \in Idx(segs) |-> SC(segs[k])], <<>>)
+SegChromOrder(segs) == UniqSeq([k \in Idx(segs) |-> SC(segs[k])])
 (* by_shared_chroms groups the segments by chromosome (first appearance), rows in table order *)
 SegOrder(segs) == LET co == SegChromOrder(segs)
                   IN FlattenSeq([n \in Idx(co) |-> SelectSeq([k \in Idx(segs) |-> k], LAMBDA k : SC(segs[k]) = co[n])])
@@ -234,7 +241,7 @@ BreaksA(r) ==
     LET bins == r.bins
         segs == r.segs
         namedRows(c) == SelectSeq(bins, LAMBDA b : BC(b) = c /\ ~LabelIgnored(BG(b)))      \* "if gname not in ignore"
-        genesOn(c) == UniqFrom([k \in Idx(namedRows(c)) |-> BG(namedRows(c)[k])], <<>>)
+        genesOn(c) == UniqSeq([k \in Idx(namedRows(c)) |-> BG(namedRows(c)[k])])
         rowsOf(c, g) == SelectSeq(bins, LAMBDA b : BC(b) = c /\ BG(b) = g)
         firstStart(c, g) == Min({BS(rowsOf(c, g)[k]) : k \in Idx(rowsOf(c, g))})
         gend(c, g)  == Max({BE(rowsOf(c, g)[k]) : k \in Idx(rowsOf(c, g))})
